@@ -67,17 +67,18 @@ type World struct {
 	mq  *MockMQ
 	sim *Sim
 
-	mu      sync.Mutex
-	log     []Rec
-	gates   []*gate
-	gated   atomic.Bool
-	clients map[string]*Client
-	https   map[string]*httpReq
-	marks   map[string][]Rec    // unfilled frame marks per client
-	evIDs   map[interface{}]int // resource event / subscription pointer -> id
-	cidSym  map[string]string   // real cid -> symbolic id
-	symCID  map[string]string
-	pendSym string // symbolic id to bind to the next conn.* subscription
+	mu        sync.Mutex
+	log       []Rec
+	gates     []*gate
+	gated     atomic.Bool
+	clients   map[string]*Client
+	https     map[string]*httpReq
+	marks     map[string][]Rec    // unfilled frame marks per client
+	evIDs     map[interface{}]int // resource event / subscription pointer -> id
+	resetPats []string            // resource patterns of the system resets sent so far
+	cidSym    map[string]string   // real cid -> symbolic id
+	symCID    map[string]string
+	pendSym   string // symbolic id to bind to the next conn.* subscription
 
 	running  bool
 	stopped  chan struct{}
@@ -242,6 +243,16 @@ func (w *World) note(kind string, kv ...interface{}) {
 	}
 	if rid, ok := r["rid"].(string); ok {
 		r["rid"] = w.symText(rid)
+	}
+	if n, ok := r["name"].(string); ok && kind == "resetres" {
+		// C12 "exactly the matching resources": does any reset sent so far list a pattern matching the name?
+		m := false
+		for _, p := range w.resetPats {
+			if PatternMatch(p, n) {
+				m = true
+			}
+		}
+		r["matched"] = m
 	}
 	if n, ok := r["name"].(string); ok {
 		if v, ok := r["n"]; ok {
